@@ -17,6 +17,16 @@
     `parser_no_args_table`, `parser_non_mapping_typeerror`; witness `utf16_parser_fails_fetch_succeeds`;
     `write_error_class` — the class of the error when the serialiser refuses the payload, per format
     and cause;
+  * fetch to the context root (`storeRoot`, several steps on one context `runC`):
+    `fetch_root_is_toplevel_update` / `fetch_root_entries` — the no-key branch is `dict.update`: afterwards
+    `context[k] = parsed[k]` for every top-level key of the file, whatever the context held there, every
+    other key unchanged; `fetch_root_twice_last_wins`, `fetch_root_idempotent` — base then override, a
+    re-fetch; `fetch_root_no_formatting` — nothing that was read is formatted (never raises on braces);
+    counter-models `additive_merge_differs_from_update`, `formatting_merge_differs_from_update`;
+  * the write steps without `payload` (`payloadFor`): `write_whole_eq_explicit_payload` — no payload = the
+    formatted context mapping given as payload, json, yaml and toml alike (`whole_context_truthy`,
+    `fileWriteStored_congr`); `write_whole_formats_keys` — the top-level key names are formatted too;
+    counter-model `whole_keys_verbatim_differs`;
   both under the explicit codec hypothesis `c.RoundTrips d` (`∃ t, enc d = some t ∧ dec t = some d`).
   For YAML (ruamel.yaml) and TOML (tomli_w/tomllib) that hypothesis is validated by generation only
   (harness/props/c16.py checks it directly on every generated payload; known failure: U+0085).
@@ -28,6 +38,7 @@
   `write_fetch_roundtrip_json` / `write_fetch_json_coerce`, `fileformatjson_doc_spec` / `_coerce`.
 -/
 import Props.Lemmas.C16_Glue
+import Props.Lemmas.C16_Root
 import Props.Lemmas.C16_JsonRoundTrip
 import Props.Lemmas.C16_JsonCoerce
 
@@ -153,7 +164,7 @@ theorem write_fetch_roundtrip_at_root {τ} (f : Format) (c : Codec τ) (fuel fue
   obtain ⟨files', h1, h2⟩ := write_fetch_roundtrip f c fuel fuel2 ctx ctx2 files path _ key hw hc hf
   refine ⟨files', Ctx.update ctx2 es, h1, ?_, Ctx.get?_update es ctx2 hnd⟩
   rw [h2]
-  rcases hkey with rfl | rfl <;> simp [store, hes, Val.truthy]
+  rcases hkey with rfl | rfl <;> simp [store, storeRoot, hes, Val.truthy]
 
 /-- The payload the write step serialises is the `payload` entry of the step's input with every
     string node of the input formatted — or, when no payload is given, the whole formatted context. -/
@@ -224,6 +235,208 @@ theorem fetch_scalar_raises_pre_fix :
       = .error (typeError "object has no len()") ∧
     fetch .json Codec.ideal 8 fctxEx [("out/f.json", Val.int 42)]
       = .ok (Ctx.set fctxEx "out" (.int 42)) := by
+  decide +kernel
+
+/-! ### Fetch to the context root is a TOP-LEVEL update (nothing read is merged into or formatted)
+
+  "parsed object stored at key or merged at root": the no-key branch of the three fetch steps is
+  `context.update(payload)`. Stated for every context (whatever it already holds under the same
+  names), every parsed mapping (duplicates, any nesting, strings with braces) and every history. -/
+
+/-- **fetch_root_is_toplevel_update.** A fetch step without destination key (or with a falsy one) on a
+    file that parses to a mapping with entries `es` succeeds whatever the context holds, the context
+    afterwards is `ctx.update es`, and key by key: a top-level key of the file holds the value of the
+    file (the LAST one if the key occurs twice) — whatever was there before, container or not — and
+    every other key holds what it held. -/
+theorem fetch_root_is_toplevel_update {τ} (f : Format) (c : Codec τ) (fuel : Nat) (ctx : Ctx) (files : Files τ)
+    (path : String) (key : Option Val) (t : τ) (kvs : List (Val × Val)) (es : List (String × Val))
+    (hkey : key = none ∨ key = some (.str ""))
+    (hf : fetchArgs f fuel ctx = .ok (path, key)) (hfile : files.get? path = some t)
+    (hd : c.dec t = some (.dict kvs)) (hes : strEntries kvs = some es) :
+    fetch f c fuel ctx files = .ok (ctx.update es) ∧
+    (∀ k v, lastOf es k = some v → (ctx.update es).get? k = some v) ∧
+    (∀ k, lastOf es k = none → (ctx.update es).get? k = ctx.get? k) := by
+  refine ⟨?_, fun k v h => by rw [Ctx.get?_update_eq, h], fun k h => by rw [Ctx.get?_update_eq, h]⟩
+  rw [fetch_eq_store f c fuel ctx files path key t _ hf hfile hd]
+  rcases hkey with rfl | rfl <;> simp [store, storeRoot, hes, Val.truthy]
+
+/-- Pairwise distinct top-level keys (what a json/yaml/toml loader returns): after the step
+    `context[k] == parsed[k]` for EVERY top-level key of the file, and every key the file does not have
+    is unchanged. -/
+theorem fetch_root_entries {τ} (f : Format) (c : Codec τ) (fuel : Nat) (ctx : Ctx) (files : Files τ)
+    (path : String) (key : Option Val) (t : τ) (kvs : List (Val × Val)) (es : List (String × Val))
+    (hkey : key = none ∨ key = some (.str ""))
+    (hf : fetchArgs f fuel ctx = .ok (path, key)) (hfile : files.get? path = some t)
+    (hd : c.dec t = some (.dict kvs)) (hes : strEntries kvs = some es) (hnd : (es.map (·.1)).Nodup) :
+    ∃ ctx', fetch f c fuel ctx files = .ok ctx' ∧ (∀ kv ∈ es, ctx'.get? kv.1 = some kv.2) ∧
+      ∀ k, k ∉ es.map (·.1) → ctx'.get? k = ctx.get? k := by
+  obtain ⟨h1, h2, h3⟩ := fetch_root_is_toplevel_update f c fuel ctx files path key t kvs es hkey hf hfile hd hes
+  exact ⟨_, h1, fun kv hkv => h2 _ _ (lastOf_mem_nodup es hnd kv hkv),
+    fun k hk => h3 k (lastOf_none_of_not_mem es k hk)⟩
+
+/-- **fetch_root_twice_last_wins.** Two fetches to the root one after the other (a base file then an
+    override file, a re-fetch of a file that changed, a fetch inside a loop): a key of the second
+    file holds the SECOND file's value — not the first one's extended or merged —, a key only the first
+    file has keeps the first file's value, any other key is as it was. -/
+theorem fetch_root_twice_last_wins (ctx c1 c2 : Ctx) (kvs1 kvs2 : List (Val × Val)) (es1 es2 : List (String × Val))
+    (h1 : strEntries kvs1 = some es1) (h2 : strEntries kvs2 = some es2)
+    (hs1 : storeRoot ctx (.dict kvs1) = .ok c1) (hs2 : storeRoot c1 (.dict kvs2) = .ok c2) (k : String) :
+    c2.get? k = match lastOf es2 k with
+      | some v => some v
+      | none => match lastOf es1 k with
+        | some v => some v
+        | none => ctx.get? k := by
+  simp only [storeRoot, h1, h2, Except.ok.injEq] at hs1 hs2
+  subst hs1 hs2
+  rw [Ctx.get?_update_eq, Ctx.get?_update_eq]
+  cases lastOf es2 k <;> cases lastOf es1 k <;> rfl
+
+/-- Fetching the same file to the root again changes nothing (a fetch in `foreach` / `retry`). -/
+theorem fetch_root_idempotent (ctx c1 c2 : Ctx) (kvs : List (Val × Val))
+    (hs1 : storeRoot ctx (.dict kvs) = .ok c1) (hs2 : storeRoot c1 (.dict kvs) = .ok c2) (k : String) :
+    c2.get? k = c1.get? k := by
+  cases hes : strEntries kvs with
+  | none => simp [storeRoot, hes] at hs1
+  | some es =>
+    rw [fetch_root_twice_last_wins ctx c1 c2 kvs kvs es es hes hes hs1 hs2 k]
+    simp only [storeRoot, hes, Except.ok.injEq] at hs1
+    subst hs1
+    rw [Ctx.get?_update_eq]
+    cases lastOf es k <;> rfl
+
+/-- **fetch_root_no_formatting.** The root update never fails on a string-keyed mapping and never looks
+    at what the strings say: whatever the context holds (so also when `{customer}` names no key of it),
+    each top-level value of the file is in the context afterwards node for node as it was parsed. -/
+theorem fetch_root_no_formatting (ctx : Ctx) (kvs : List (Val × Val)) (es : List (String × Val))
+    (hes : strEntries kvs = some es) :
+    ∃ ctx', storeRoot ctx (.dict kvs) = .ok ctx' ∧ ∀ k v, lastOf es k = some v → ctx'.get? k = some v :=
+  ⟨ctx.update es, by simp [storeRoot, hes], fun k v h => by rw [Ctx.get?_update_eq, h]⟩
+
+private def ctxLayer : Ctx :=
+  [("servers", .list [.str "alpha", .str "beta"]), ("db", .dict [(.str "host", .str "db1"), (.str "port", .int 5432)]),
+   ("keep", .str "{untouched}")]
+private def overrideDoc : Val :=
+  .dict [(.str "servers", .list [.str "gamma"]), (.str "db", .dict [(.str "host", .str "db2")]),
+         (.str "template", .str "Dear {customer}, order {{id}}")]
+
+example : storeRoot ctxLayer overrideDoc =
+    .ok [("servers", .list [.str "gamma"]), ("db", .dict [(.str "host", .str "db2")]), ("keep", .str "{untouched}"),
+         ("template", .str "Dear {customer}, order {{id}}")] := by decide +kernel
+
+/-- The same through the steps, on ONE context (`runC`): base file to the root, then the override
+    file to the root — lists and tables of the override REPLACE those of the base. -/
+example : runC (fun _ => Codec.ideal) 8 [("env", .str "prod")]
+      [("base.toml", Val.dict [(.str "servers", .list [.str "alpha", .str "beta"]), (.str "title", .str "t{env}")]),
+       ("over.toml", Val.dict [(.str "servers", .list [.str "gamma"])])]
+      [.fetch .toml (.dict [(.str "path", .str "base.toml")]), .fetch .toml (.str "over.toml")] =
+    [.ok [("env", .str "prod"), ("servers", .list [.str "alpha", .str "beta"]), ("title", .str "t{env}")],
+     .ok [("env", .str "prod"), ("servers", .list [.str "gamma"]), ("title", .str "t{env}")]] := by decide +kernel
+
+/-- Counter-model: an ADDITIVE (deep) merge at the root is a different function — on the layered
+    example it appends to the list and keeps the table entry the override no longer has. -/
+theorem additive_merge_differs_from_update :
+    additiveUpdate ctxLayer [("servers", .list [.str "gamma"]), ("db", .dict [(.str "host", .str "db2")])] =
+      [("servers", .list [.str "alpha", .str "beta", .str "gamma"]),
+       ("db", .dict [(.str "host", .str "db2"), (.str "port", .int 5432)]), ("keep", .str "{untouched}")] ∧
+    Ctx.update ctxLayer [("servers", .list [.str "gamma"]), ("db", .dict [(.str "host", .str "db2")])] =
+      [("servers", .list [.str "gamma"]), ("db", .dict [(.str "host", .str "db2")]), ("keep", .str "{untouched}")] := by
+  decide +kernel
+
+/-- Counter-model: a root merge that FORMATS what it read raises on a text with literal braces
+    (`{customer}` is no key) or substitutes it; the update stores it verbatim. -/
+theorem formatting_merge_differs_from_update :
+    formattingUpdate 8 ctxLayer [("template", .str "Dear {customer}")] = .error (keyNotInContext "customer") ∧
+    formattingUpdate 8 ctxLayer [("template", .str "see {keep} {{id}}")] =
+      .ok (ctxLayer ++ [("template", .str "see {untouched} {id}")]) ∧
+    storeRoot ctxLayer (.dict [(.str "template", .str "see {keep} {{id}}")]) =
+      .ok (ctxLayer ++ [("template", .str "see {keep} {{id}}")]) := by
+  decide +kernel
+
+/-! ### The whole-context branch of the write steps (no `payload` given) -/
+
+/-- **write_whole_eq_explicit_payload.** For every format: the step without a `payload` entry hands the
+    serialiser exactly what it would hand it had the formatted context mapping been given as the
+    (formatted) `payload` — the whole-context branch is not a second way of formatting. (`htoml`: TOML
+    refuses a falsy explicit payload; the formatted context is never empty — `whole_context_truthy`.) -/
+theorem write_whole_eq_explicit_payload (f : Format) (fuel : Nat) (ctx : Ctx) (input : List (Val × Val)) (w : Val)
+    (hno : dictGet? input (.str "payload") = none) (hw : fmtVal fuel ctx (Ctx.toVal ctx) = .ok w)
+    (htoml : f = .toml → w.truthy = true) :
+    payloadFor f fuel ctx input = .ok w ∧
+    payloadFor f fuel ctx (dictSet input (.str "payload") w) = .ok w := by
+  refine ⟨by simp [payloadFor, hno, hw], ?_⟩
+  simp only [payloadFor, dictGet?_dictSet_self]
+  by_cases hf : f = .toml
+  · simp [hf, htoml hf]
+  · simp [hf]
+
+/-- The formatted whole context of a step that is running is a non-empty mapping (the step's own
+    input is in it), so `htoml` above always holds. -/
+theorem whole_context_truthy (fuel : Nat) (ctx : Ctx) (w : Val) (hne : ctx ≠ [])
+    (hdoc : ∀ kv ∈ ctx, isDoc kv.2 = true) (hw : fmtVal fuel ctx (Ctx.toVal ctx) = .ok w) : w.truthy = true := by
+  have hm := fmtDoc_maps_strings fuel ctx (Ctx.toVal ctx) w
+    (by simpa [Ctx.toVal, isDoc] using isDocPairs_toVal ctx hdoc) hw
+  simp only [Ctx.toVal, DocMap] at hm
+  obtain ⟨kvs', rfl, hp⟩ := hm
+  have hlen := hp.length
+  have : kvs' ≠ [] := by
+    intro h
+    subst h
+    exact hne (List.eq_nil_of_length_eq_zero (by simpa using hlen.symm))
+  have := rebuildDict_ne_nil kvs' this
+  cases hr : rebuildDict kvs' with
+  | nil => exact absurd hr this
+  | cons a as => simp [Val.truthy]
+
+/-- **write_whole_formats_keys.** What the step without `payload` serialises is the context mapping with
+    every string node formatted, the TOP-LEVEL KEY NAMES included: for every entry `k ↦ v` of the
+    context the written mapping is built from a pair (formatted `k`, formatted `v`). -/
+theorem write_whole_formats_keys (f : Format) (fuel : Nat) (ctx : Ctx) (raw : List (Val × Val)) (path : String) (w : Val)
+    (hin : ctx.get? f.writeKey = some (.dict raw)) (hraw : isDocPairs raw = true)
+    (hdoc : ∀ kv ∈ ctx, isDoc kv.2 = true)
+    (hnop : ∀ input, DocMapPairs ctx raw input → dictGet? (rebuildDict input) (.str "payload") = none)
+    (hw : writePayload f fuel ctx = .ok (path, w)) :
+    ∃ kvs', w = .dict (rebuildDict kvs') ∧ kvs'.length = ctx.length ∧
+      ∀ kv ∈ ctx, ∃ k' v', (k', v') ∈ kvs' ∧ DocMap ctx (.str kv.1) k' ∧ DocMap ctx kv.2 v' := by
+  obtain ⟨input, hp, hor⟩ := write_payload_is_formatted f fuel ctx raw path w hin hraw hw
+  rcases hor with h | ⟨_, hwhole⟩
+  · rw [hnop input hp] at h
+    cases h
+  · have hm := fmtDoc_maps_strings fuel ctx (Ctx.toVal ctx) w
+      (by simpa [Ctx.toVal, isDoc] using isDocPairs_toVal ctx hdoc) hwhole
+    simp only [Ctx.toVal, DocMap] at hm
+    obtain ⟨kvs', rfl, hpairs⟩ := hm
+    refine ⟨kvs', rfl, by simpa using hpairs.length, ?_⟩
+    intro kv hkv
+    exact DocMapPairs.mem hpairs (Val.str kv.1, kv.2) (List.mem_map.mpr ⟨kv, hkv, rfl⟩)
+
+/-- The file the write step leaves depends on the context only through (path, payload handed to the
+    serialiser, encoding): two steps that agree on these leave the same file — with
+    `write_whole_eq_explicit_payload`: no payload = the formatted context given as payload, json, yaml and
+    toml alike. -/
+theorem fileWriteStored_congr {τ} (f : Format) (c : Codec τ) (fuel fuel2 : Nat) (ctx ctx2 : Ctx)
+    (dflt dflt2 : Option String) (files : Files (Stored τ))
+    (hp : writePayload f fuel ctx = writePayload f fuel2 ctx2)
+    (he : writeEncoding f fuel ctx dflt = writeEncoding f fuel2 ctx2 dflt2) :
+    fileWriteStored f c fuel ctx dflt files = fileWriteStored f c fuel2 ctx2 dflt2 files := by
+  simp only [fileWriteStored, hp, he]
+
+private def ctxTemplated : Ctx :=
+  [("env", .str "prod"), ("{env}_url", .str "https://{env}.example"),
+   ("fileWriteYaml", .dict [(.str "path", .str "out/{env}.yaml")])]
+
+example : writePayload .yaml 8 ctxTemplated =
+    .ok ("out/prod.yaml", .dict [(.str "env", .str "prod"), (.str "prod_url", .str "https://prod.example"),
+      (.str "fileWriteYaml", .dict [(.str "path", .str "out/prod.yaml")])]) := by decide +kernel
+
+/-- Counter-model: a whole-context dump that formats the values but copies the top-level key names
+    verbatim writes another document as soon as a key name carries an expression. -/
+theorem whole_keys_verbatim_differs :
+    wholeKeysVerbatim 8 ctxTemplated =
+      .ok (.dict [(.str "env", .str "prod"), (.str "{env}_url", .str "https://prod.example"),
+        (.str "fileWriteYaml", .dict [(.str "path", .str "out/prod.yaml")])]) ∧
+    fmtDoc 8 ctxTemplated (Ctx.toVal ctxTemplated) =
+      .ok (.dict [(.str "env", .str "prod"), (.str "prod_url", .str "https://prod.example"),
+        (.str "fileWriteYaml", .dict [(.str "path", .str "out/prod.yaml")])]) := by
   decide +kernel
 
 /-! ### Encodings: the output is in the OUT encoding on every route -/
